@@ -179,16 +179,13 @@ def run_two_lives(pid, res, rng, binary, n):
         cases.append((d1, h1, d2, h2))
     lines = ["upd2 " + line_of(d1, h1)[4:] + " " + line_of(d2, h2)[4:] for d1, h1, d2, h2 in cases]
     impl = c.run_lines(binary, lines)
-    m1 = c.run_model([line_of(d1, h1) for d1, h1, d2, h2 in cases])
-    m2 = c.run_model([line_of(d2, h2) for d1, h1, d2, h2 in cases])
+    models = c.run_model(lines)      # Updater.lives: every instance starts from u_init with its own rate
     res.evaluations += len(cases)
     diffs, bad = [], []
-    for (d1, h1, d2, h2), ln, i, a, b in zip(cases, lines, impl, m1, m2):
+    for (d1, h1, d2, h2), ln, i, model in zip(cases, lines, impl, models):
         res.count("gen:two lives over one segment")
         res.nontriv(ln)
-        ra, rb = parse_out(a), parse_out(b)
-        model = None if ra is None or rb is None else "%d %s" % (len(ra) + len(rb), " ".join(" ".join(str(x) for x in r) for r in ra + rb))
-        if model is None or i.split() != model.split():
+        if i.split() != model.split():
             diffs.append({"case": ln, "impl": i, "model": model})
         recs = parse_out(i)
         if recs is None:
@@ -399,8 +396,7 @@ def split_two(ln):
 def replay_two(pid, ln):
     l1, l2 = split_two(ln)
     out = c.run_lines(c.build_harness("debug")[0], [ln])[0]
-    ra, rb = [parse_out(x) for x in c.run_model([l1, l2])]
-    model = "%d %s" % (len(ra) + len(rb), " ".join(" ".join(str(x) for x in r) for r in ra + rb))
+    model = c.run_model([ln])[0]
     recs = parse_out(out)
     why = []
     if recs is None:
